@@ -13,7 +13,7 @@ THEOREMS = ["ZI.Adapt.C14_order", "ZI.Adapt.C14_conform_wins", "ZI.Adapt.C14_rai
             "ZI.Adapt.C14_registry", "ZI.Adapt.C14_twin", "ZI.Adapt.callPy_spec", "ZI.Adapt.runHooks_spec"]
 
 CONFS = ["a", "E", "A11", "n", "v21", "r12", "Q13"]
-HOOKS = ["n", "v3%d", "r4%d", "N", "Q5%d"]
+HOOKS = ["n", "v3%d", "r4%d", "N", "Q5%d", "S6%d"]          # S: raises a StopIteration subclass
 ALTS = ["-", "77", "0"]
 CUSTOMS = ["-", "n", "v55", "r56", "Q57", "In", "Iv58"]
 # __conform__ shapes beyond a bound method: raising TypeError from its body (T), a plain function stored on the
@@ -61,7 +61,7 @@ def gen_lines(rnd, tier):
                     for cu in CUSTOMS:
                         L.append("call %s %s %s %s %s" % (cf, prov, hs, alt, cu))
     # registry hook installed: the result must equal registry.queryAdapter
-    for cf in ["a", "E", "n", "Ya", "Yd"]:
+    for cf in ["a", "E", "n", "Ya", "Yd", "t0", "t1", "t2"]:
         for t in ["R0", "Rn", "Rv61", "W0", "Wn", "Wv62"]:
             for alt in ALTS:
                 for pre in ["", "n,"]:
@@ -69,7 +69,7 @@ def gen_lines(rnd, tier):
     if tier == "thorough":
         for _ in range(20000):
             n = rnd.randint(4, 6)
-            hs = ",".join((HOOKS[c] % k if "%" in HOOKS[c] else HOOKS[c]) for k, c in enumerate(rnd.choices(range(len(HOOKS)), weights=[4, 1, 1, 2, 1], k=n)))
+            hs = ",".join((HOOKS[c] % k if "%" in HOOKS[c] else HOOKS[c]) for k, c in enumerate(rnd.choices(range(len(HOOKS)), weights=[4, 1, 1, 2, 1, 1], k=n)))
             L.append("call %s %s %s %s %s" % (rnd.choice(CONFS + CONFS2), rnd.choice("01"), hs, rnd.choice(ALTS), rnd.choice(CUSTOMS)))
     return L
 
@@ -102,7 +102,7 @@ def to_model(line):
             return "n"
         if t.startswith("Rv") or t.startswith("Wv"):
             return "v" + t[2:]
-        return "r" + t[1:] if t[0] == "Q" else t
+        return "r" + t[1:] if t[0] in "QS" else t
     f = effective(line).split()
     hs = ",".join(tok(t) for t in f[3].split(","))
     cf = normcf(f[1])
@@ -140,7 +140,7 @@ def spec(line):
             log.append("h%d" % k)
             if t.startswith("v") or t.startswith("Rv") or t.startswith("Wv"):
                 return "val " + t.lstrip("RWv"), log
-            if t[0] in "rQ":
+            if t[0] in "rQS":
                 return "exc " + t[1:], log
     if alt != "-":
         return "val " + alt, log
